@@ -195,6 +195,7 @@ CHECKS["C16"] = {
     "outside": ["exact RFC 6381 strings and RESOLUTION values of H265 / VP9 (prefix and presence only); AV1: exact string for arbitrary profile / level / tier / bit depth / monochrome / subsampling / colour description (cp, tc, mc in 0..22) by lemma.codecs.av1, except the sRGB triple and the optional fields of headers without a colour description (pinned to 01.01.01.0 by TestMarshal)", "peak/mean equality for multi-stream muxers (the statement only claims it for single-stream ones)"],
     "runs": [
         {"name": "run.mv.layout", "files": C16F, "fn": "VerifH_C16_layout", "workers": 16, "reach": ["accepted", "rejected", "end"]},
+        {"name": "run.mv.layout.mpegts", "files": C16F, "fn": "VerifH_C16_layout", "workers": 16, "params": {"TSLAYOUT": 1}, "reach": ["accepted", "rejected", "end"]},
         {"name": "run.mv.layout.h265", "files": C16F, "fn": "VerifH_C16_layout", "workers": 16, "params": {"VCODEC": 1}, "reach": ["accepted", "rejected", "end"]},
         {"name": "run.mv.layout.vp9", "files": C16F, "fn": "VerifH_C16_layout", "workers": 16, "params": {"VCODEC": 2}, "reach": ["accepted", "rejected", "end"]},
         {"name": "run.mv.layout.av1", "files": C16F, "fn": "VerifH_C16_layout", "workers": 16, "params": {"VCODEC": 3}, "reach": ["accepted", "rejected", "end"]},
